@@ -303,7 +303,7 @@ def cstr (b : Bytes) : Bytes := b.takeWhile (· != 0)
 zero-filled array of four -/
 def viewConstant (values : List UInt32) (c : ConstantF) : Constant :=
   let n := c.valueSize.toNat / 4
-  { id := c.constantId, numValues := UInt32.ofNat n
+  { id := c.constantId, numValues := (c.valueSize / 4).toUInt32
     values := ((values.drop (c.valueOffset.toNat / 4)).take n) ++ List.replicate (4 - n) 0 }
 
 def viewColorTable : ColorTableF → Option ColorTable
